@@ -143,3 +143,86 @@ pub fn record_huge(seed: u64, thorough: bool, path: &str, only: &str) -> Value {
     stats["sample"] = serde_json::from_str(&out.lines[1]).unwrap();
     stats
 }
+
+fn ms_query(sv: &simple_sds::sparse_vector::SparseVector, op: &str, a: usize) -> Value {
+    let pair = bv::is_pair_op(op);
+    let r = guarded(|| match op {
+        "get" => l64(sv.get(a) as usize),
+        "rank" => l64(sv.rank(a)),
+        "sel" => opt64(sv.select(a)),
+        "seli" => pair64(sv.select_iter(a).next()),
+        "pred" => pair64(sv.predecessor(a).next()),
+        "succ" => pair64(sv.successor(a).next()),
+        _ => panic!("TOOL-ERROR: unknown multiset query {}", op),
+    });
+    match r { Ok(v) => v, Err(_) => panic64(pair) }
+}
+
+/// Multiset sparse vectors over universes up to usize::MAX (validated by TraceMS64 against MSRef64).
+pub fn record_huge_ms(seed: u64, thorough: bool, path: &str) -> Value {
+    let mut rng = Rng::new(seed);
+    let mut out = TraceOut::new();
+    let mut stats = json!({"objects": 0, "queries": 0, "widths": {}});
+    let universes: Vec<usize> = if thorough { vec![1 << 32, (1 << 40) + 3, 1 << 48, (1 << 56) - 1, 1 << 62, (1 << 63) + 1, usize::MAX - 12345, usize::MAX] } else { vec![(1 << 33) + 3, 1 << 62, (1 << 63) + 1, usize::MAX] };
+    let counts: Vec<usize> = if thorough { vec![1, 2, 7, 40, 300, 2000] } else { vec![1, 5, 60, 500] };
+    let mut o = 0usize;
+    for n in universes.iter() {
+        for m in counts.iter() {
+            o += 1;
+            // distinct values: both ends of the universe, bucket boundaries of the expected low width, random; then multiplicities
+            let w = ((*n as f64) * std::f64::consts::LN_2 / (*m as f64)).log2().round().clamp(1.0, 63.0) as usize;
+            let mut set = std::collections::BTreeSet::new();
+            if o % 2 == 0 { set.insert(0usize); }
+            if o % 3 != 0 { set.insert(*n - 1); }
+            let k = (rng.next() as usize) % (*n >> w).max(1);
+            for p in [k << w, (k << w).saturating_add(1), (k << w).saturating_sub(1)] { if p < *n { set.insert(p); } }
+            let distinct = (*m / 3).max(1);
+            while set.len() < distinct { set.insert(rng.next() as usize % *n); }
+            let mut items: Vec<(usize, usize)> = set.into_iter().map(|v| (v, 1)).collect();
+            let mut total = items.len();
+            while total < *m { let k = rng.below(items.len()); let add = rng.range(1, 6).min(*m - total); items[k].1 += add; total += add; }
+            let vals: Vec<usize> = items.iter().flat_map(|(v, c)| std::iter::repeat(*v).take(*c)).collect();
+            let route = ["set", "try_set", "extend"][o % 3];
+            let items_json: Vec<Value> = items.iter().map(|(v, c)| json!([l64(*v), c])).collect();
+            let sv = match guarded(|| crate::ms::build(route, *n, &vals)) {
+                Ok(Ok(v)) => v,
+                _ => { out.push(json!({"e": "def", "universe": l64(*n), "items": items_json, "route": route, "built": "FAILED", "obs": []})); continue; },
+            };
+            out.push(json!({"e": "def", "universe": l64(*n), "items": items_json, "route": route, "built": "ok",
+                            "obs": [l64(sv.len()), l64(sv.count_ones()), l64(sv.count_zeros()), sv.is_multiset()]}));
+            let d = out.lines.len();
+            {
+                let elems = crate::layout::to_elements(&crate::layout::to_bytes(&sv));
+                let (_, _, low) = crate::layout::sparse_layout(&elems);
+                let key = format!("w{}", low.width);
+                stats["widths"][&key] = json!(stats["widths"][&key].as_u64().unwrap_or(0) + 1);
+            }
+            let mut pos: Vec<usize> = vec![0, 1, n.saturating_sub(1), *n, n.saturating_add(1), 1 << 63, usize::MAX - 1, usize::MAX, (1usize << 32) + 1];
+            for (v, _) in items.iter().take(30).chain(items.iter().rev().take(10)) { pos.extend([v.saturating_sub(1), *v, v.saturating_add(1)]); }
+            for _ in 0..20 { pos.push(rng.next() as usize % *n); }
+            pos.sort(); pos.dedup();
+            let mut ranks: Vec<usize> = vec![0, 1, vals.len().saturating_sub(1), vals.len(), vals.len() + 1, 1 << 31, 1 << 63, usize::MAX];
+            let mut cum = 0usize;
+            for (_, c) in items.iter().take(30) { ranks.extend([cum, cum + c - 1]); cum += c; }
+            for _ in 0..10 { ranks.push(rng.below(vals.len() + 1)); }
+            ranks.sort(); ranks.dedup();
+            for (op, base, lim) in [("get", &pos, Some(*n)), ("rank", &pos, None), ("pred", &pos, None), ("succ", &pos, None), ("sel", &ranks, None), ("seli", &ranks, None)] {
+                let all: Vec<usize> = base.iter().copied().filter(|a| lim.map(|l| *a < l).unwrap_or(true)).collect();
+                let rs: Vec<Value> = all.iter().map(|a| ms_query(&sv, op, *a)).collect();
+                out.push(json!({"e": "q", "d": d, "op": op, "a": all.iter().map(|a| l64(*a)).collect::<Vec<Value>>(), "r": rs}));
+                stats["queries"] = json!(stats["queries"].as_u64().unwrap() + all.len() as u64);
+            }
+            if vals.len() <= 600 {
+                let fwd: Vec<Value> = sv.one_iter().map(|(r, p)| json!([l64(r), l64(p)])).collect();
+                let mut back: Vec<Value> = sv.one_iter().rev().map(|(r, p)| json!([l64(r), l64(p)])).collect();
+                back.reverse();
+                out.push(json!({"e": "pairs", "d": d, "fwd": fwd, "back": back}));
+            }
+            stats["objects"] = json!(stats["objects"].as_u64().unwrap() + 1);
+        }
+    }
+    out.write(path);
+    stats["events"] = json!(out.lines.len());
+    stats["sample"] = serde_json::from_str(&out.lines[0]).unwrap();
+    stats
+}
